@@ -104,8 +104,13 @@ def ir_blocks(ctx, rnd):
             blocks.append((k, "\n".join(ls)))
             meta[k] = ("rt", rep, p, None, None)
             k += 1
+    # coarse period against nano: factors (6e10, 3.6e12, 8.64e13) that a float cannot hold exactly -
+    # chrono multiplies by the rounded factor in the common rep, and so must the quantity side
+    forced = [((60, 1), (1, 10 ** 9)), ((1, 10 ** 9), (3600, 1)), ((86400, 1), (1, 10 ** 9))]
+    pairs = forced + [pq for pq in pairs if pq not in forced]
     for (p, q) in pairs:
-        for (r1, r2) in ([("int64_t", "int64_t"), ("int32_t", "int64_t"), ("double", "double"), ("int32_t", "int32_t"), ("float", "float")] if ctx.thorough else [("int64_t", "int64_t"), ("double", "double")]):
+        wide = ctx.thorough or (p, q) in forced
+        for (r1, r2) in ([("int64_t", "int64_t"), ("int32_t", "int64_t"), ("double", "double"), ("int32_t", "int32_t"), ("float", "float"), ("float", "int32_t"), ("int64_t", "float")] if wide else [("int64_t", "int64_t"), ("double", "double")]):
             D1, D2 = dur(r1, p), dur(r2, q)
             ls = ["using E%d = %s; using F%d = %s;" % (k, D1, k, D2)]
             names = []
@@ -202,8 +207,19 @@ def body(ctx):
                     ref = dag.build(mod.funcs["m_ref_%s_%d" % (nm, k)], mod)
                     for side in ("dq", "qd"):
                         n += 1
-                        got = dag.build(mod.funcs["m_%s_%s_%d" % (side, nm, k)], mod)
                         key = "mixed:%s,%d/%d|%s,%d/%d|%s_%s" % (r1, p[0], p[1], r2, q[0], q[1], side, nm)
+                        try:
+                            got = dag.build(mod.funcs["m_%s_%s_%d" % (side, nm, k)], mod)
+                        except AnalysisBroken as e:
+                            fn_ = mod.funcs["m_%s_%s_%d" % (side, nm, k)]
+                            text_ = " ".join(i.raw for l in fn_.order for i in fn_.blocks[l])
+                            rtext_ = " ".join(i.raw for fr_ in [mod.funcs["m_ref_%s_%d" % (nm, k)]] for l in fr_.order for i in fr_.blocks[l])
+                            if "x86_fp80" in text_ and "x86_fp80" not in rtext_:
+                                # chrono's side stays in the common rep; the quantity side goes through long
+                                # double: rounding once where chrono rounds twice (or the reverse)
+                                fs.append((key, "mixed duration/quantity `%s` computes in long double where the same operation inside chrono stays in %s (%s vs %s): the results differ in the last place" % (op, model.common_type(r1, r2), dur(r1, p), dur(r2, q)), str(e)[:300]))
+                                continue
+                            raise
                         if got.ret == ref.ret:
                             nd += 1
                             continue
